@@ -2741,7 +2741,10 @@ class Network(Cached):
             the number of all nodes is returned.  (Default: True)
         :rtype: int >= 0
         """
-        return self.graph.diameter(directed=directed, unconn=only_connected)
+        diameter = self.graph.diameter(directed=directed,
+                                       unconn=only_connected)
+        #  igraph reports an unconnected network as infinity
+        return self.N if np.isinf(diameter) else diameter
 
     #
     #  Link valued measures
